@@ -25,6 +25,10 @@ type Item struct {
 	AtRound uint64
 	// AfterHead: before delivering, wait until V's store head is at least this round (0: none)
 	AfterHead uint64
+	// AfterSigned: before delivering, wait until V has made this many partial signatures of its own (0: none)
+	AfterSigned int
+	// ReleaseSync: once this packet is delivered, the scripted sync server (VAdv.SyncGated) starts answering
+	ReleaseSync bool
 }
 
 // VAdv is the "one real node V (member 0) + scripted other members" harness used by C01 (c01-agg), C03 and C04.
@@ -47,6 +51,9 @@ type VAdv struct {
 	// takes over at round TransitionRound
 	Transition      *Keys
 	TransitionRound uint64
+	// SyncGated: the scripted sync server answers only after the adversary delivered the packet marked ReleaseSync
+	// (a slow sync peer); sequences without such a packet are not gated
+	SyncGated bool
 	// ExpectBeacon[i], when set for sequence i, lists the rounds V must have stored at the end under the
 	// default schedule... (not used by safety oracles)
 }
@@ -105,6 +112,15 @@ func (h *VAdv) Run(devs []vrt.Dev, labels bool) *VAdvResult {
 		seq := h.Seqs[res.Seq]
 		nt := NewNet(k)
 		res.Net = nt
+		syncOpen := !h.SyncGated
+		if h.SyncGated {
+			syncOpen = true
+			for _, it := range seq {
+				if it.ReleaseSync {
+					syncOpen = false
+				}
+			}
+		}
 		var pre []*common.Beacon
 		if h.Prefill > 0 {
 			pre = ref[:h.Prefill+1]
@@ -132,6 +148,7 @@ func (h *VAdv) Run(devs []vrt.Dev, labels bool) *VAdvResult {
 				st := &chanStream{ctx: sctx, ch: ch}
 				vrt.GoNamed("scripted-sync-server", func() {
 					defer cancel()
+					vrt.BlockUntil(func() bool { return syncOpen })
 					_ = beacon.SyncChain(fix.Logger(), pcbs, req, st)
 					vrt.Close(ch, func() { close(ch) })
 				})
@@ -168,8 +185,16 @@ func (h *VAdv) Run(devs []vrt.Dev, labels bool) *VAdvResult {
 					want := it.AfterHead
 					vrt.BlockUntil(func() bool { b, err := v.Base.Last(ctx); return err == nil && b.Round >= want })
 				}
+				if it.AfterSigned > 0 {
+					want := it.AfterSigned
+					vrt.BlockUntil(func() bool { return len(res.Signed) >= want })
+				}
 				vrt.Logf("adversary: %s", it.Label)
 				_ = nt.Deliver(ctx, it.From, k.Addr(it.From), v, it.P)
+				if it.ReleaseSync {
+					vrt.Logf("adversary: the sync peer starts answering")
+					syncOpen = true
+				}
 			}
 		})
 	})
